@@ -109,6 +109,9 @@ func startSignCtx(d *Deployment, id uint16, digest []byte, topic string, ctx con
 // signersFor returns the nodes that take part in a signing session on topic.
 func signersFor(d *Deployment, r *prng.Rand, topic string) []uint16 {
 	k := d.Cfg.Threshold + 1
+	if d.Cfg.Silent && d.Cfg.PickFixed != nil {
+		return append([]uint16(nil), d.Cfg.PickFixed[:k]...)
+	}
 	if d.Cfg.Silent {
 		return PickMembers(d.allConfigured(), d.Cfg.PickUnsorted)(sha([]byte(topic)), k)
 	}
